@@ -121,6 +121,9 @@ func selftest() int {
 		fmt.Fprintln(os.Stderr, err)
 		return 2
 	}
+	// everything in the dedicated build cache now (standard library, framework libraries) is "warm":
+	// later runs delete whatever else accumulates
+	engine.TrimGoCacheReset()
 	fmt.Printf("selftest: pipeline ok (%d packages built and run in %.1fs)\n", res.Built, res.WallS)
 	return 0
 }
